@@ -2,7 +2,7 @@
 (* Trace validation for C18: a reference-encoded bpch file (plus tracerinfo /  *)
 (* diaginfo tables) read without scaling, rewritten, read with scaling, and    *)
 (* read by the block-walking reader.                                           *)
-EXTENDS BpchLayout, TraceLib
+EXTENDS BpchLayout, TraceLib, FiniteSets
 VARIABLES tid, l
 tvars == <<tid, l>>
 TInit == tid \in 1..NTraces /\ l = 0
@@ -34,20 +34,49 @@ ReadDiag(c, tr, got, scaled) ==
   ELSE IF got.tau1 # [t \in 1..c.nt |-> Tau0(c, t) + 24] THEN "tau1 (time bounds)"
   ELSE ""
 
+\* ReadDiag restricted to the first nsteps blocks (truncation scans)
+PrefixDiag(c, got, nsteps) ==
+  LET cc == [c EXCEPT !.nt = nsteps] IN
+  IF got.dims.time # nsteps THEN "number of time blocks"
+  ELSE IF \E s \in 1..Len(c.tr) : got.vars[s].found = FALSE THEN "a tracer variable (category_name) is missing"
+  ELSE IF \E s \in 1..Len(c.tr) : got.vars[s].shape # <<nsteps, c.tr[s].nl, c.nj, c.ni>> THEN "shape of a tracer variable"
+  ELSE IF \E s \in 1..Len(c.tr) : ~got.vars[s].ok THEN "values are not the encoded values"
+  ELSE IF \E s \in 1..Len(c.tr) : got.vars[s].x2 # ExpB(cc, s, 2)
+       THEN "tracer data of variable " \o ToString(CHOOSE s \in 1..Len(c.tr) : got.vars[s].x2 # ExpB(cc, s, 2))
+  ELSE IF got.tau0 # [t \in 1..nsteps |-> Tau0(c, t)] THEN "tau0 (time bounds)"
+  ELSE ""
+NFound(got) == Cardinality({s \in 1..Len(got.vars) : got.vars[s].found})
+
 TStep ==
   LET tr == Traces[tid] c == tr.cfg IN
   /\ l = 0 /\ l' = 1 /\ tid' = tid
   /\ Chk(tr, 1, "reference encoder size", tr.nbytes, tr.expbytes)
-  /\ ChkT(tr, 1, "read without scaling raised: " \o tr.raw.exc, tr.raw.res = "ok")
-  /\ ChkS(tr, 1, "read(noscale) does not present the encoded content", ReadDiag(c, tr, tr.raw.got, FALSE))
-  /\ ChkT(tr, 1, "rewrite raised: " \o tr.rewrite.exc, tr.rewrite.res = "ok")
-  /\ Chk(tr, 1, "write(read(file, noscale)) vs the original bytes (32-bit words)", tr.rewrite.words, tr.refwords)
-  /\ ChkT(tr, 1, "read with scaling raised: " \o tr.scaled.exc, tr.scaled.res = "ok")
-  /\ ChkS(tr, 1, "read with scaling is not raw x table scale", ReadDiag(c, tr, tr.scaled.got, TRUE))
-  /\ ChkT(tr, 1, "second write/read raised: " \o tr.rt.exc, tr.rt.res = "ok")
-  /\ ChkS(tr, 1, "read(write(f)) differs from f", ReadDiag(c, tr, tr.rt.got, TRUE))
-  /\ IF tr.alt.res # "ok" THEN ChkT(tr, 1, "block-walking reader raised: " \o tr.alt.exc, FALSE)
-     ELSE ChkS(tr, 1, "block-walking reader presents other data than the memory-mapped one", ReadDiag(c, tr, tr.alt.got, TRUE))
+  /\ CASE tr.kind = "roundtrip" ->
+       /\ ChkT(tr, 1, "read without scaling raised: " \o tr.raw.exc, tr.raw.res = "ok")
+       /\ ChkS(tr, 1, "read(noscale) does not present the encoded content", ReadDiag(c, tr, tr.raw.got, FALSE))
+       /\ ChkT(tr, 1, "rewrite raised: " \o tr.rewrite.exc, tr.rewrite.res = "ok")
+       /\ Chk(tr, 1, "write(read(file, noscale)) vs the original bytes (32-bit words)", tr.rewrite.words, tr.refwords)
+       /\ ChkT(tr, 1, "read with scaling raised: " \o tr.scaled.exc, tr.scaled.res = "ok")
+       /\ ChkS(tr, 1, "read with scaling is not raw x table scale", ReadDiag(c, tr, tr.scaled.got, TRUE))
+       /\ ChkT(tr, 1, "second write/read raised: " \o tr.rt.exc, tr.rt.res = "ok")
+       /\ ChkS(tr, 1, "read(write(f)) differs from f", ReadDiag(c, tr, tr.rt.got, TRUE))
+       /\ IF tr.alt.res # "ok" THEN ChkT(tr, 1, "block-walking reader raised: " \o tr.alt.exc, FALSE)
+          ELSE ChkS(tr, 1, "block-walking reader presents other data than the memory-mapped one", ReadDiag(c, tr, tr.alt.got, TRUE))
+     \* C14: every prefix of the reference-encoded file opened by the memory-mapped reader
+     [] tr.kind = "cuts" ->
+       LET pos == PosSeq(c) IN
+       \A p \in 1..Len(tr.obs) : LET o == tr.obs[p] m == BpchOpenZ(pos, Len(c.tr), o.n) IN
+         /\ ChkT(tr, p, "reader did not terminate on the prefix of " \o ToString(o.n) \o " bytes", o.k # "Hang")
+         /\ Chk(tr, p, "prefix of " \o ToString(o.n) \o " bytes: outcome differs from the reader model (steps, tracers)",
+                IF o.k = "Steps" THEN <<o.got.dims.time, NFound(o.got)>> ELSE <<-1, 0>>,
+                IF m.k = "Steps" THEN <<m.n, m.K>> ELSE <<-1, 0>>)
+         /\ (o.k = "Steps" =>
+               IF NFound(o.got) < Len(c.tr)
+               THEN TrKnown(tr, "C14_K3_bpch_partial_first_block")
+               ELSE /\ ChkT(tr, p, "prefix of " \o ToString(o.n) \o " bytes: more blocks exposed than are complete",
+                            o.got.dims.time <= CompleteBlocks(c, o.n))
+                    /\ ChkS(tr, p, "prefix of " \o ToString(o.n) \o " bytes: exposed blocks differ from the full file",
+                            PrefixDiag(c, o.got, o.got.dims.time)))
   /\ TrAccept(tr)
 TSpec == TInit /\ [][TStep]_tvars
 =================================================================================
